@@ -10,6 +10,7 @@ import (
 	"net"
 	"sort"
 	"sync"
+	"sync/atomic"
 	"testing/synctest"
 	"time"
 
@@ -336,10 +337,10 @@ func (p *Puppet) Addr() string { return p.EP.Addr() }
 
 // Nonce returns a fresh deterministic nonce.
 func (p *Puppet) Nonce() []byte {
-	p.nonce++
+	n := atomic.AddUint64(&p.nonce, 1) // scripted peers answer from their own goroutines
 	var b [16]byte
 	binary.LittleEndian.PutUint64(b[:], p.Seed)
-	binary.LittleEndian.PutUint64(b[8:], p.nonce)
+	binary.LittleEndian.PutUint64(b[8:], n)
 	h := sha256.Sum256(b[:])
 	return h[:12]
 }
